@@ -1,8 +1,169 @@
-/-! Line-protocol driver for component `Framing` (stub; the component owner replaces `run`). -/
+import Lean.Data.Json
+import PSO.Model.Framing
+
+/-! Line-protocol driver for component `framing` (model `PSO.Framing`, property C13).
+
+One JSON object per input line = one case:
+
+```
+{"timeout":T, "enc":[[id,"hex"],...], "dec":[["hex",id],...], "none":[ids], "cbdisc":[ids],
+ "pinned":false, "init":{"sock":true,"now":0},
+ "evs":[{"k":"send","m":id,"now":n,"s":[SendRes...]},
+        {"k":"poll","d":true,"rd":b,"wr":b,"er":b,"now":n,"so":b,"oc":b,"s":[SendRes...],"r":[RecvRes...]},
+        {"k":"disc"}, {"k":"conn","ok":b,"now":n}]}
+SendRes = integer k | "a" (EAGAIN) | "e" (hard error);  RecvRes = ["hex", soErr] | "a" | "e"
+```
+
+One JSON object per output line:
+`{"steps":[[state,rlen,radler,wlen,wadler,wirelen,wireadler,ndelivered,ndisc,mask,lastRead],...],
+  "delivered":[ids], "undec":["hex",...]}` — one step record after every event (state 0/1/2 as in
+`CONNECTION_STATE`, mask -1 = unsubscribed); `undec` = payloads the parse loop found undecodable with the
+given table (diagnostic: the harness asks the real zlib/pickle about them and re-submits the case with a
+larger table when one of them does decode).
+
+`"pinned":true` runs the reader with `parseOnePinned` (the unrepaired `__processParseMessage`) instead —
+used only by the D13 witness to show that the model of the pinned code reproduces the pinned behaviour. -/
 namespace Driver.Framing
+open Lean PSO PSO.Framing
+
+def hexVal (c : Char) : Nat :=
+  if '0' ≤ c ∧ c ≤ '9' then c.toNat - '0'.toNat
+  else if 'a' ≤ c ∧ c ≤ 'f' then c.toNat - 'a'.toNat + 10
+  else if 'A' ≤ c ∧ c ≤ 'F' then c.toNat - 'A'.toNat + 10 else 0
+
+partial def unhexGo : List Char → List UInt8 → List UInt8
+  | a :: b :: rest, acc => unhexGo rest (UInt8.ofNat (16 * hexVal a + hexVal b) :: acc)
+  | _, acc => acc.reverse
+
+def unhex (s : String) : Bytes := unhexGo s.toList []
+
+def hexDigit (n : Nat) : Char := if n < 10 then Char.ofNat (48 + n) else Char.ofNat (87 + n)
+
+def hex (b : Bytes) : String :=
+  String.ofList (b.foldr (fun x acc => hexDigit (x.toNat / 16) :: hexDigit (x.toNat % 16) :: acc) [])
+
+/-- zlib's adler32 (so that Python can use `zlib.adler32`) -/
+def adler32 (b : Bytes) : Nat :=
+  let (a, s) := b.foldl (fun (p : Nat × Nat) x =>
+    let a := (p.1 + x.toNat) % 65521
+    (a, (p.2 + a) % 65521)) (1, 0)
+  s * 65536 + a
+
+def stateNum : CState → Nat
+  | .disconnected => 0 | .connecting => 1 | .connected => 2
+
+def getD (j : Json) (k : String) : Json := (j.getObjVal? k).toOption.getD Json.null
+def getNat (j : Json) (k : String) : Nat := ((getD j k).getNat?).toOption.getD 0
+def getBool (j : Json) (k : String) : Bool := ((getD j k).getBool?).toOption.getD false
+def getArr (j : Json) (k : String) : Array Json := ((getD j k).getArr?).toOption.getD #[]
+
+def parseSend (j : Json) : SendRes :=
+  match j with
+  | .str "a" => .again
+  | .str _ => .err
+  | _ => match j.getInt? with
+    | .ok k => .ret k
+    | .error _ => .err
+
+def parseRecv (j : Json) : RecvRes :=
+  match j with
+  | .str "a" => .again
+  | .arr a =>
+    let h := (a[0]?.bind (·.getStr?.toOption)).getD ""
+    let so := (a[1]?.bind (·.getBool?.toOption)).getD false
+    .data (unhex h) so
+  | _ => .err
+
+def parseEv (j : Json) : Ev Nat :=
+  match (getD j "k").getStr?.toOption.getD "" with
+  | "send" => .send (getNat j "m") (getNat j "now") ((getArr j "s").toList.map parseSend)
+  | "poll" => .poll { descrOk := getBool j "d", rd := getBool j "rd", wr := getBool j "wr", er := getBool j "er",
+                      now := getNat j "now", soErr := getBool j "so", onConnDisc := getBool j "oc",
+                      sends := (getArr j "s").toList.map parseSend,
+                      recvs := (getArr j "r").toList.map parseRecv }
+  | "conn" => .connect (getBool j "ok") (getNat j "now")
+  | _ => .disconnect
+
+/-! The pinned reader: same loop and same READ branch, `parseOnePinned` in place of `parseOne`
+(witness only; fuel = buffer length + 1 because the pinned function need not shrink the buffer). -/
+def parseLoopPinned (cfg : Cfg Nat) : Nat → Conn Nat → Conn Nat
+  | 0, c => c
+  | fuel + 1, c =>
+    match parseOnePinned cfg.dec c.rbuf with
+    | .wait => c
+    | .bad => disconnect c
+    | .msg m rest =>
+      if cfg.isNone m then { c with rbuf := rest }
+      else
+        let c' := { c with rbuf := rest, delivered := c.delivered ++ [m] }
+        if cfg.cbDisc m then disconnect c' else parseLoopPinned cfg fuel c'
+
+def pollPinned (cfg : Cfg Nat) (c : Conn Nat) (e : PollEv) : Conn Nat :=
+  -- only used for plain READ events (the witness)
+  if c.state != .connected then c else
+  let c := recvLoop c e.recvs
+  let c := { c with lastRead := e.now }
+  if c.state = .disconnected then c else parseLoopPinned cfg (c.rbuf.length + 1) c
+
+/-- diagnostic: payloads (complete, non-negative length) on which `dec` fails while parsing `rb` -/
+partial def undecodable (cfg : Cfg Nat) (rb : Bytes) : List Bytes :=
+  match parseOne cfg.dec rb with
+  | .wait => []
+  | .msg m rest => if cfg.isNone m || cfg.cbDisc m then [] else undecodable cfg rest
+  | .bad =>
+    if rb.length ≥ 4 ∧ leInt32 rb ≥ 0 then [(rb.drop 4).take (leInt32 rb).toNat] else []
+
+def stepRecord (c : Conn Nat) : Json :=
+  Json.arr #[stateNum c.state, c.rbuf.length, adler32 c.rbuf, c.wbuf.length, adler32 c.wbuf,
+             c.wire.length, adler32 c.wire, c.delivered.length, c.nDisc,
+             (match c.pollMask with | some m => Json.num (m : Int) | none => Json.num (-1 : Int)),
+             c.lastRead]
+
+def runCase (j : Json) : Json :=
+  let encT : List (Nat × Bytes) := (getArr j "enc").toList.map fun p =>
+    (((p.getArrVal? 0).toOption.bind (·.getNat?.toOption)).getD 0,
+     unhex (((p.getArrVal? 1).toOption.bind (·.getStr?.toOption)).getD ""))
+  let decT : List (Bytes × Nat) := (getArr j "dec").toList.map fun p =>
+    (unhex (((p.getArrVal? 0).toOption.bind (·.getStr?.toOption)).getD ""),
+     ((p.getArrVal? 1).toOption.bind (·.getNat?.toOption)).getD 0)
+  let nones : List Nat := (getArr j "none").toList.map fun x => x.getNat?.toOption.getD 0
+  let cbd : List Nat := (getArr j "cbdisc").toList.map fun x => x.getNat?.toOption.getD 0
+  let cfg : Cfg Nat :=
+    { enc := fun m => ((encT.find? (·.1 == m)).map (·.2)).getD []
+      dec := fun p => (decT.find? (fun e => e.1.length == p.length && e.1 == p)).map (·.2)
+      isNone := fun m => nones.contains m
+      cbDisc := fun m => cbd.contains m
+      timeout := getNat j "timeout" }
+  let pinned := getBool j "pinned"
+  let ini := getD j "init"
+  let c0 : Conn Nat := Conn.init (getBool ini "sock") (getNat ini "now")
+  let evs := (getArr j "evs").toList.map parseEv
+  let (cN, steps, undec) := evs.foldl (fun (acc : Conn Nat × Array Json × List Bytes) ev =>
+      let (c, steps, undec) := acc
+      let c' := match pinned, ev with
+        | true, .poll e => pollPinned cfg c e
+        | _, _ => step cfg c ev
+      let ud := match ev with
+        | .poll e => if e.rd && c'.nDisc > c.nDisc then undecodable cfg (recvLoop c e.recvs).rbuf else []
+        | _ => []
+      (c', steps.push (stepRecord c'), undec ++ ud)) (c0, #[], [])
+  Json.mkObj [("steps", Json.arr steps),
+              ("delivered", Json.arr (cN.delivered.toArray.map fun (n : Nat) => (n : Json))),
+              ("undec", Json.arr (undec.toArray.map fun b => Json.str (hex b)))]
+
+partial def loop (hin hout : IO.FS.Stream) : IO Unit := do
+  let line ← hin.getLine
+  if line.isEmpty then return
+  let t := line.trimAscii.toString
+  if t.isEmpty then loop hin hout else
+  match Json.parse t with
+  | .error e => hout.putStrLn (Json.mkObj [("error", Json.str e)]).compress
+  | .ok j => hout.putStrLn (runCase j).compress
+  hout.flush
+  loop hin hout
 
 def run : IO UInt32 := do
-  IO.eprintln "driver component Framing: not implemented"
-  return 3
+  loop (← IO.getStdin) (← IO.getStdout)
+  return 0
 
 end Driver.Framing
